@@ -98,6 +98,100 @@ def _flatten_add(e: ast.AST) -> T.List[ast.AST]:
     return [e]
 
 
+def template_parts(e: ast.AST) -> T.List[ast.AST]:
+    """A text template as a list of pieces (string Constants and value expressions), whatever its spelling:
+    `a + 'x'`, f-strings, `'%s=x' % a`, `'{}=x'.format(a)`, `''.join([a, 'x'])`."""
+    if isinstance(e, ast.BinOp) and isinstance(e.op, ast.Add):
+        return template_parts(e.left) + template_parts(e.right)
+    if isinstance(e, ast.JoinedStr):
+        out: T.List[ast.AST] = []
+        for v in e.values:
+            if isinstance(v, ast.Constant):
+                out.append(v)
+            elif isinstance(v, ast.FormattedValue) and v.format_spec is None and v.conversion in (-1, 115):
+                out += template_parts(v.value) if isinstance(v.value, (ast.JoinedStr, ast.Constant)) else [v.value]
+            else:
+                return [e]
+        return out
+    if isinstance(e, ast.BinOp) and isinstance(e.op, ast.Mod) and isinstance(e.left, ast.Constant) and isinstance(e.left.value, str):
+        args = list(e.right.elts) if isinstance(e.right, ast.Tuple) else [e.right]
+        chunks = e.left.value.split('%s')
+        if len(chunks) == len(args) + 1 and not any('%' in c for c in chunks):
+            out = []
+            for i, c in enumerate(chunks):
+                if c:
+                    out.append(ast.Constant(value=c))
+                if i < len(args):
+                    out.append(args[i])
+            return out
+        return [e]
+    if isinstance(e, ast.Call) and isinstance(e.func, ast.Attribute) and e.func.attr == 'format' and isinstance(e.func.value, ast.Constant) \
+            and isinstance(e.func.value.value, str) and not e.keywords:
+        chunks = e.func.value.value.split('{}')
+        if len(chunks) == len(e.args) + 1 and not any('{' in c or '}' in c for c in chunks):
+            out = []
+            for i, c in enumerate(chunks):
+                if c:
+                    out.append(ast.Constant(value=c))
+                if i < len(e.args):
+                    out.append(e.args[i])
+            return out
+        return [e]
+    if isinstance(e, ast.Call) and isinstance(e.func, ast.Attribute) and e.func.attr == 'join' and isinstance(e.func.value, ast.Constant) \
+            and e.func.value.value == '' and len(e.args) == 1 and isinstance(e.args[0], (ast.List, ast.Tuple)):
+        out = []
+        for x in e.args[0].elts:
+            out += template_parts(x)
+        return out
+    return [e]
+
+
+def bind_args(call: ast.Call, fn: ast.FunctionDef, is_method: bool) -> T.Dict[str, ast.AST]:
+    """Call arguments bound to the callee's parameters by signature (positional index or keyword name);
+    `obj.m(a)` and `Class.m(obj, a)` / static methods are told apart by the decorator and the receiver."""
+    params = [a.arg for a in fn.args.posonlyargs + fn.args.args]
+    static = any(norm(d) == 'staticmethod' for d in fn.decorator_list)
+    if is_method and not static and params and params[0] in ('self', 'cls'):
+        recv = call.func.value if isinstance(call.func, ast.Attribute) else None
+        explicit_self = isinstance(recv, ast.Name) and recv.id[:1].isupper() and call.args and norm(call.args[0]) in ('self', 'cls')
+        if not explicit_self:
+            params = params[1:]
+    out: T.Dict[str, ast.AST] = {}
+    for i, a in enumerate(call.args):
+        if i < len(params) and not isinstance(a, ast.Starred):
+            out[params[i]] = a
+    for k in call.keywords:
+        if k.arg:
+            out[k.arg] = k.value
+    return out
+
+
+def const_values_tested(test: ast.AST, var: str) -> T.Optional[T.Set[T.Any]]:
+    """The constants `var` is compared with when `test` holds: `var == c`, `c == var`, `var in {..}`, `var == a or var == b`."""
+    if isinstance(test, ast.BoolOp) and isinstance(test.op, ast.Or):
+        out: T.Set[T.Any] = set()
+        for v in test.values:
+            r = const_values_tested(v, var)
+            if r is None:
+                return None
+            out |= r
+        return out
+    if isinstance(test, ast.Compare) and len(test.ops) == 1:
+        l, r = test.left, test.comparators[0]
+        if isinstance(test.ops[0], ast.Eq):
+            if norm(l) == var and isinstance(r, ast.Constant):
+                return {r.value}
+            if norm(r) == var and isinstance(l, ast.Constant):
+                return {l.value}
+        if isinstance(test.ops[0], ast.In) and norm(l) == var:
+            if isinstance(r, (ast.Set, ast.Tuple, ast.List)) and all(isinstance(x, ast.Constant) for x in r.elts):
+                return {x.value for x in r.elts}  # type: ignore[attr-defined]
+            if isinstance(r, ast.Call) and norm(r.func) in ('frozenset', 'set') and len(r.args) == 1 and isinstance(r.args[0], (ast.Set, ast.Tuple, ast.List)) \
+                    and all(isinstance(x, ast.Constant) for x in r.args[0].elts):
+                return {x.value for x in r.args[0].elts}  # type: ignore[attr-defined]
+    return None
+
+
 # ---------------------------------------------------------------------------
 # lexer facts
 def _lexer_table(mod: Module, attr: str) -> ast.AST:
@@ -171,13 +265,7 @@ def lexer_line_model(ctx: RuleCtx) -> T.Tuple[T.Set[str], int, int, T.List[str]]
 
 def _trigger_chars(ctx: RuleCtx, mod: Module, fn: ast.AST, guard: ast.If, inc: ast.AugAssign) -> T.Set[str]:
     test = guard.test
-    tids: T.Set[str] = set()
-    if isinstance(test, ast.Compare) and len(test.ops) == 1 and norm(test.left) == 'tid':
-        c = test.comparators[0]
-        if isinstance(test.ops[0], ast.Eq) and isinstance(c, ast.Constant):
-            tids = {c.value}
-        elif isinstance(test.ops[0], ast.In) and isinstance(c, (ast.Set, ast.Tuple, ast.List)) and all(isinstance(x, ast.Constant) for x in c.elts):
-            tids = {x.value for x in c.elts}  # type: ignore[attr-defined]
+    tids: T.Set[str] = const_values_tested(test, 'tid') or set()
     if not tids:
         raise Undecided(f'Lexer.lex: line counter moves under `{short(test)}`')
     out: T.Set[str] = set()
@@ -340,11 +428,18 @@ def r3(ctx: RuleCtx) -> None:
     cfg = CFG(fn)
 
     # ---- the splicing function: the one that stores <...>['raw'] = <slice> + new + <slice>
-    splicers = [f for f in _nested_funcs(fn) if any(_is_raw_store(s) and any(isinstance(x, ast.Slice) for x in ast.walk(s.value)) for s in ast.walk(f))]
-    if len(splicers) != 1:
-        raise Undecided(f'apply_changes: {len(splicers)} splicing helpers found')
-    sp = splicers[0]
-    sp_q = f'Rewriter.apply_changes.{sp.name}'
+    # (found by role: nested in apply_changes, or a method / module function that apply_changes calls)
+    def splices(f: ast.AST) -> bool:
+        return any(_is_raw_store(s_) and any(isinstance(x, ast.Slice) for x in ast.walk(s_.value)) for s_ in ast.walk(f))  # type: ignore[attr-defined]
+    called = {(attr_chain(c.func) or '').split('.')[-1] for c in ast.walk(fn) if isinstance(c, ast.Call)}
+    cands: T.List[T.Tuple[str, ast.FunctionDef, bool]] = [(f'Rewriter.apply_changes.{f.name}', f, False) for f in _nested_funcs(fn) if splices(f)]
+    if not cands:
+        for q, f in mod.funcs().items():
+            if f is not fn and q.split('.')[-1] in called and q.count('.') <= 1 and splices(f) and isinstance(f, ast.FunctionDef):
+                cands.append((q, f, '.' in q))
+    if len(cands) != 1:
+        raise Undecided(f'apply_changes: {len(cands)} splicing helpers found')
+    sp_q, sp, sp_is_method = cands[0]
 
     # ---- (a) order: one descending sort on (lineno, colno) feeds the splice loop
     sorts: T.List[T.Tuple[ast.stmt, ast.Call, str]] = []
@@ -390,8 +485,9 @@ def r3(ctx: RuleCtx) -> None:
         if e is None or n.kind != 'stmt' or n.ast is sort_st:
             continue
         for c in walk_no_nested(e):
-            if isinstance(c, ast.Call) and (norm(c.func) in ('sorted', 'reversed') or (isinstance(c.func, ast.Attribute) and c.func.attr in ('sort', 'reverse'))):
-                late.append(n.ast)
+            if isinstance(c, ast.Call) and (norm(c.func) in ('sorted', 'reversed') or (isinstance(c.func, ast.Attribute) and c.func.attr in ('sort', 'reverse'))) \
+                    and work in {x.id for x in ast.walk(c) if isinstance(x, ast.Name)}:
+                raise Undecided(f'apply_changes: the work list is re-ordered again by `{short(c)}`: the effective order is not decided')
         if isinstance(n.ast, ast.AugAssign) and norm(n.ast.target) == work or \
                 (isinstance(n.ast, ast.Expr) and isinstance(n.ast.value, ast.Call) and norm(n.ast.value.func) in (f'{work}.append', f'{work}.extend', f'{work}.insert')):
             acts = {x.value for d in ast.walk(n.ast) if isinstance(d, ast.Dict) for k, x in zip(d.keys, d.values)
@@ -402,10 +498,16 @@ def r3(ctx: RuleCtx) -> None:
                 late[0] if late else 'work list after sort', f'`{short(late[0]) if late else ""}` changes the work list after it was sorted: positional edits would be applied out of order',
                 late[0] if late else None)
     # the splice loop: for X in L: <splicer>(X); L is the work list or filled in order from it
-    loops = [n for n in walk_no_nested(fn) if isinstance(n, ast.For) and any(isinstance(c, ast.Call) and norm(c.func) == sp.name for c in ast.walk(n))]
+    def calls_splicer(c: ast.AST) -> bool:
+        return isinstance(c, ast.Call) and (attr_chain(c.func) or '').split('.')[-1] == sp.name
+    loops = [n for n in walk_no_nested(fn) if isinstance(n, ast.For) and any(calls_splicer(c) for c in ast.walk(n))]
     if len(loops) != 1 or not isinstance(loops[0].iter, ast.Name):
         raise Undecided('apply_changes: splice loop not found')
     loop = loops[0]
+    # which parameter of the splicer is the work item: the one bound to the loop variable at the call
+    item_params = {p_ for c in ast.walk(loop) if calls_splicer(c) for p_, a_ in bind_args(T.cast(ast.Call, c), sp, sp_is_method).items() if norm(a_) == norm(loop.target)}
+    if len(item_params) != 1:
+        raise Undecided(f'apply_changes: cannot tell which parameter of {sp.name} receives the work item')
     lname = loop.iter.id
     if lname != work:
         writers = [n for n in ast.walk(fn) if (isinstance(n, ast.AugAssign) and norm(n.target) == lname)
@@ -429,7 +531,7 @@ def r3(ctx: RuleCtx) -> None:
     term, first_line, first_col, evid = lexer_line_model(ctx)
     for e in evid:
         ctx.note('lexer: ' + e)
-    param = sp.args.args[0].arg
+    param = next(iter(item_params))
     paths = [p for p in enumerate_paths(sp.body) if any(_is_raw_store(s) for s in p.stmts())]
     chosen: T.List[Path] = []
     for p in paths:
@@ -545,7 +647,13 @@ def _list_writers(fn: ast.AST, is_list: T.Callable[[ast.AST], bool]) -> T.List[T
         elif isinstance(st, ast.Assign) and any(is_list(t) for t in st.targets):
             if isinstance(st.value, (ast.List,)) and not st.value.elts or (isinstance(st.value, ast.Call) and norm(st.value.func) == 'list' and not st.value.args):
                 continue     # (re-)initialisation with the empty list
-            out.append((st, list(st.value.elts) if isinstance(st.value, ast.List) else []))
+            v = st.value
+            if isinstance(v, ast.BinOp) and isinstance(v.op, ast.Add) and is_list(v.left) and isinstance(v.right, ast.List):
+                out.append((st, list(v.right.elts)))         # x = x + [a]
+            elif isinstance(v, ast.List) and v.elts and isinstance(v.elts[0], ast.Starred) and is_list(v.elts[0].value):
+                out.append((st, list(v.elts[1:])))           # x = [*x, a]
+            else:
+                out.append((st, list(v.elts) if isinstance(v, ast.List) else []))
     return out
 
 
@@ -659,6 +767,127 @@ def _demo_writer_detector() -> None:
         raise Undecided('self-check of the list-writer detector failed')
 
 
+PURE_CALLS = {'isinstance', 'len', 'hasattr', 'id', 'str', 'repr', 'type', 'print', 'sorted', 'min', 'max', 'bool'}
+
+
+def _escapes(fn: ast.AST, var: str) -> T.List[ast.Call]:
+    """Calls that receive `var` (or its argument node) and could change it out of sight."""
+    names = {var, f'{var}.args', f'{var}.args.arguments', f'{var}.args.kwargs'}
+    for n in ast.walk(fn):
+        if isinstance(n, ast.Assign) and len(n.targets) == 1 and isinstance(n.targets[0], ast.Name) and norm(n.value) in names:
+            names.add(n.targets[0].id)
+    out = []
+    for c in ast.walk(fn):
+        if not isinstance(c, ast.Call):
+            continue
+        cn = attr_chain(c.func) or ''
+        if cn.split('.')[-1] in PURE_CALLS or cn.startswith('mlog.'):
+            continue
+        if any(norm(a.value if isinstance(a, ast.Starred) else a) in names for a in c.args) or any(norm(k.value) in names for k in c.keywords):
+            out.append(c)
+    return out
+
+
+def _callers(m: Module, fn: ast.FunctionDef, var: str) -> T.Optional[T.List[T.Tuple[str, ast.FunctionDef, ast.Call, ast.AST]]]:
+    """(caller name, caller, call, argument bound to parameter `var`) for every call of `fn` in the module; None when `var` is not a parameter."""
+    params = [a.arg for a in fn.args.posonlyargs + fn.args.args + fn.args.kwonlyargs]
+    if var not in params or var in ('self', 'cls'):
+        return None
+    is_method = any(q.endswith('.' + fn.name) and f is fn and '.' in q for q, f in m.funcs().items())
+    out = []
+    for q, g in m.funcs().items():
+        if g is fn:
+            continue
+        for c in walk_no_nested(g):
+            if isinstance(c, ast.Call) and (attr_chain(c.func) or '').split('.')[-1] == fn.name:
+                b = bind_args(c, fn, is_method)
+                if var in b and isinstance(g, ast.FunctionDef):
+                    out.append((q, g, c, b[var]))
+    return out
+
+
+def _require_mutated(ctx: RuleCtx, m: Module, qn: str, fn: ast.AST, var: str, st: ast.AST, what_ok: str, what_bad: str, effect: str) -> None:
+    muts = _mutates_args_of(fn, var)
+    if muts:
+        ctx.ok(f'{qn}: `{var}` {what_ok} and its argument list is changed here ({len(muts)} mutation(s))')
+        return
+    callers = _callers(m, T.cast(ast.FunctionDef, fn), var) if isinstance(fn, ast.FunctionDef) else None
+    if callers is not None:
+        # the record was extracted into a helper: the change of the argument list is the caller's business
+        if not callers:
+            raise Undecided(f'{qn}: `{var}` is a parameter and no call of {qn} was found')
+        for cq, g, c, arg in callers:
+            if not isinstance(arg, ast.Name):
+                raise Undecided(f'{cq}: `{short(c)}` hands over {short(arg)}')
+            if _mutates_args_of(g, arg.id):
+                ctx.ok(f'{cq}: `{arg.id}` {what_ok} through {qn} and its argument list is changed in {cq}')
+            elif _escapes(g, arg.id)[1:] or _callers(m, g, arg.id) is not None:
+                raise Undecided(f'{cq}: cannot see where the argument list of `{arg.id}` is changed')
+            else:
+                ctx.violation(m, cq, c, f'`{arg.id}` {what_bad} (through {qn}) but {cq} never changes {arg.id}.args.arguments / {arg.id}.args.kwargs '
+                              f'and hands it to nobody who could: {effect}', c)
+        return
+    esc = _escapes(fn, var)
+    if esc:
+        raise Undecided(f'{qn}: `{var}` is not changed here but handed to `{short(esc[0])}`: cannot see whether its argument list is changed')
+    ctx.violation(m, qn, st, f'`{var}` {what_bad} but {qn} never changes {var}.args.arguments / {var}.args.kwargs and hands it to nobody who could: {effect}', st)
+
+
+def _declared_types(m: Module, fn: ast.AST, var: str) -> T.Optional[T.Set[str]]:
+    """Class names a static annotation gives for `var`: its own annotation, or the return annotation of the function whose
+    result it is unpacked from."""
+    def names_of(ann: ast.AST) -> T.Set[str]:
+        ns = {n.id for n in ast.walk(ann) if isinstance(n, ast.Name)} | {n.attr for n in ast.walk(ann) if isinstance(n, ast.Attribute)}
+        return ns - {'T', 'Union', 'Optional', 'typing', 'Tuple', 'List', 'None'}
+    for n in ast.walk(fn):
+        if isinstance(n, ast.AnnAssign) and isinstance(n.target, ast.Name) and n.target.id == var:
+            return names_of(n.annotation)
+        if isinstance(n, ast.Assign) and len(n.targets) == 1 and isinstance(n.value, ast.Call):
+            tg = n.targets[0]
+            elts = tg.elts if isinstance(tg, ast.Tuple) else [tg]
+            idx = [i for i, e in enumerate(elts) if norm(e) == var]
+            if not idx:
+                continue
+            cname = (attr_chain(n.value.func) or '').split('.')[-1]
+            cands = [f for q, f in m.funcs().items() if q.split('.')[-1] == cname and f.returns is not None]
+            if len(cands) != 1:
+                return None
+            r = cands[0].returns
+            if isinstance(tg, ast.Tuple):
+                sl = r.slice if isinstance(r, ast.Subscript) else None
+                if isinstance(sl, ast.Tuple) and len(sl.elts) == len(elts):
+                    return names_of(sl.elts[idx[0]])
+                return None
+            return names_of(r)
+    return None
+
+
+def _require_typed(ctx: RuleCtx, m: Module, qn: str, fn: ast.AST, cfg: CFG, var: str, st: ast.AST, nodes: T.List[Node]) -> None:
+    what = f'{qn}: `{var}` is an ArrayNode/FunctionNode on every path to the record'
+    if _annotation_ok(fn, var, SPLICED_CLASSES) or all(_guarded_by(cfg, nd, _isinstance_of(var, SPLICED_CLASSES)) for nd in nodes):
+        ctx.ok(what)
+        return
+    callers = _callers(m, T.cast(ast.FunctionDef, fn), var) if isinstance(fn, ast.FunctionDef) else None
+    if callers:
+        for cq, g, c, arg in callers:
+            if not isinstance(arg, ast.Name):
+                raise Undecided(f'{cq}: `{short(c)}` hands over {short(arg)}')
+            gcfg = CFG(g)
+            cn = gcfg.node_containing(c)
+            if _annotation_ok(g, arg.id, SPLICED_CLASSES) or (cn and all(_guarded_by(gcfg, nd, _isinstance_of(arg.id, SPLICED_CLASSES)) for nd in cn)):
+                ctx.ok(f'{cq}: `{arg.id}` is an ArrayNode/FunctionNode where it is handed to {qn}')
+            else:
+                raise Undecided(f'{cq}: type of `{arg.id}` handed to {qn} is not visible')
+        return
+    declared = _declared_types(m, fn, var)
+    if declared and not declared <= SPLICED_CLASSES:
+        ctx.violation(m, qn, f'type of {var} at {short(st)}',
+                      f'`{var}` is declared as {sorted(declared)} and reaches `{short(st)}` on a path without an isinstance check for ArrayNode / FunctionNode: '
+                      'apply_changes can only replace nodes that carry an end position (others are inserted in front of the old text)', st)
+        return
+    raise Undecided(f'{qn}: cannot see the type of `{var}` at `{short(st)}`')
+
+
 def r4(ctx: RuleCtx) -> None:
     _demo_writer_detector()
     mod = ctx.repo.module(REWRITER)
@@ -683,9 +912,7 @@ def r4(ctx: RuleCtx) -> None:
                     raise Undecided(f'{rel}: {qn}: `{short(st)}` does not add exactly one named node')
                 var = elts[0].id
                 n_mod += 1
-                muts = _mutates_args_of(fn, var)
-                ctx.require(bool(muts), f'{qn}: `{var}` is recorded as modified and its argument list is changed here ({len(muts)} mutation(s))', m, qn, st,
-                            f'`{var}` is put on modified_nodes but {qn} never changes {var}.args.arguments / {var}.args.kwargs: an untouched statement would be re-printed', st)
+                _require_mutated(ctx, m, qn, fn, var, st, 'is recorded as modified', 'is put on modified_nodes', 'an untouched statement would be re-printed')
                 nodes = cfg.stmt_nodes(st)
                 if not nodes:
                     raise Undecided(f'{qn}: writer not in CFG')
@@ -699,10 +926,7 @@ def r4(ctx: RuleCtx) -> None:
                     return None
                 ctx.require(all(_guarded_by(cfg, nd, not_in) for nd in nodes), f'{qn}: `{var}` is recorded at most once (guarded by `{var} not in {lst}`)', m, qn, st,
                             f'`{short(st)}` can run while `{var}` is already on the list: the node would be spliced twice, the second time at stale offsets', st)
-                typed = _annotation_ok(fn, var, SPLICED_CLASSES) or all(_guarded_by(cfg, nd, _isinstance_of(var, SPLICED_CLASSES)) for nd in nodes)
-                ctx.require(typed, f'{qn}: `{var}` is an ArrayNode/FunctionNode on every path to the record', m, qn, f'type of {var} at {short(st)}',
-                            f'`{var}` reaches `{short(st)}` without an isinstance check / annotation for ArrayNode or FunctionNode: apply_changes can only '
-                            'replace nodes that carry an end position (others are inserted in front of the old text)', st)
+                _require_typed(ctx, m, qn, fn, cfg, var, st, nodes)
     ctx.floor('writers of modified_nodes', n_mod, 4)
 
     # -- to_sort_nodes: only nodes whose argument list the command touched
@@ -715,9 +939,7 @@ def r4(ctx: RuleCtx) -> None:
             if len(elts) != 1 or not isinstance(elts[0], ast.Name):
                 raise Undecided(f'{qn}: `{short(st)}`')
             n_sort += 1
-            muts = _mutates_args_of(fn, elts[0].id)
-            ctx.require(bool(muts), f'{qn}: `{elts[0].id}` is scheduled for sorting and its argument list is changed here', mod, qn, st,
-                        f'`{elts[0].id}` is scheduled for sorting although {qn} does not change its arguments: an untouched list would be re-ordered', st)
+            _require_mutated(ctx, mod, qn, fn, elts[0].id, st, 'is scheduled for sorting', 'is scheduled for sorting', 'an untouched list would be re-ordered')
     ctx.floor('writers of to_sort_nodes', n_sort, 2)
 
     _r4_sort(ctx, mod)
@@ -794,10 +1016,38 @@ def _r4_guards(ctx: RuleCtx, mod: Module) -> None:
     rets = [n for n in walk_no_nested(g) if isinstance(n, ast.Return)]
     if len(rets) != 1 or rets[0].value is None:
         raise Undecided(f'{gname}: not a single return')
-    a, pol = canon(rets[0].value, True)
-    if not (a.kind == 'cmp' and any(str(x).startswith('len(') for x in a.args[1:])):
+    gdefs: T.Dict[str, T.List[ast.AST]] = {}
+    for n in walk_no_nested(g):
+        if isinstance(n, ast.Assign) and len(n.targets) == 1 and isinstance(n.targets[0], ast.Name):
+            gdefs.setdefault(n.targets[0].id, []).append(n.value)
+        elif isinstance(n, ast.AnnAssign) and isinstance(n.target, ast.Name) and n.value is not None:
+            gdefs.setdefault(n.target.id, []).append(n.value)
+    single = {k: v[0] for k, v in gdefs.items() if len(v) == 1}
+
+    def is_count(e: ast.AST, depth: int = 0) -> bool:
+        # len(<collection>) / sum(1 for ...) / a local bound once to one of these
+        if isinstance(e, ast.Name) and e.id in single and depth < 3:
+            return is_count(single[e.id], depth + 1)
+        if isinstance(e, ast.Call) and norm(e.func) == 'len' and len(e.args) == 1:
+            return True
+        if isinstance(e, ast.Call) and norm(e.func) == 'sum' and len(e.args) == 1 and isinstance(e.args[0], (ast.GeneratorExp, ast.ListComp)) \
+                and isinstance(e.args[0].elt, ast.Constant) and e.args[0].elt.value == 1:
+            return True
+        return False
+    rv = rets[0].value
+    if isinstance(rv, ast.Name) and rv.id in single:
+        rv = single[rv.id]
+    if not (isinstance(rv, ast.Compare) or (isinstance(rv, ast.UnaryOp) and isinstance(rv.op, ast.Not) and isinstance(rv.operand, ast.Compare))):
         raise Undecided(f'{gname}: result {short(rets[0].value)} is not a comparison of a count')
-    exact = (a.args[0] == 'eq' and a.args[2] == '1' and pol) or (a.args[0] == 'lt' and a.args[2] == '2' and pol) or (a.args[0] == 'lt' and a.args[1] == '1' and not pol)
+    cmp_e = rv if isinstance(rv, ast.Compare) else rv.operand  # type: ignore[attr-defined]
+    sides = [cmp_e.left] + list(cmp_e.comparators)
+    if len(sides) != 2 or sum(1 for x in sides if is_count(x)) != 1 or not any(isinstance(x, ast.Constant) for x in sides):
+        raise Undecided(f'{gname}: result {short(rets[0].value)} is not a comparison of a count with a constant')
+    cnt = next(x for x in sides if is_count(x))
+    a, pol = canon(_Subst({}).visit(copy.deepcopy(rv)), True)
+    a = a._replace(args=tuple('COUNT' if x == norm(cnt) else x for x in a.args))
+    exact = (a.args[0] == 'eq' and set(a.args[1:]) == {'COUNT', '1'} and pol) or (a.args[0] == 'lt' and a.args[1:] == ('COUNT', '2') and pol) \
+        or (a.args[0] == 'lt' and a.args[1:] == ('1', 'COUNT') and not pol)
     ctx.require(exact, f'{gname}: holds only when at most one target is affected', mod, f'Rewriter.{gname}', rets[0],
                 f'{gname} returns {short(rets[0].value)}: it also holds when several targets are fed by the candidate', rets[0])
 
@@ -824,6 +1074,15 @@ def _r4_guards(ctx: RuleCtx, mod: Module) -> None:
             bad.append(p.describe())
     if not hit:
         raise Undecided(f'{qn}: no path reaches the removal')
+    if bad:
+        guard_calls = [c for c in ast.walk(fn) if isinstance(c, ast.Call) and (attr_chain(c.func) or '').split('.')[-1] == gname]
+        in_scope = [c for c in walk_no_nested(fn) if isinstance(c, ast.Call) and (attr_chain(c.func) or '').split('.')[-1] == gname]
+        helpers_on_path = [c for c in walk_no_nested(loops[0]) if isinstance(c, ast.Call) and (attr_chain(c.func) or '').split('.')[-1] not in PURE_CALLS
+                           and not (attr_chain(c.func) or '').startswith(('mlog.', 'os.')) and any(norm(a_) == victim for a_ in c.args)
+                           and (attr_chain(c.func) or '').split('.')[-1] not in (gname, 'remove', 'pop')]
+        if len(guard_calls) != len(in_scope) or helpers_on_path:
+            # the guard may be applied where this rule does not look (nested helper / a helper that receives the victim)
+            raise Undecided(f'{qn}: {gname} is not a path condition of `{short(rm)}` but may be applied inside a helper')
     ctx.require(not bad, f'{qn}: {hit} path(s) reach `{short(rm)}`, each after {gname}({victim}) held', mod, qn, rm,
                 f'`{short(rm)}` is reachable without {gname}({victim}) being true (path: {bad[0][:160] if bad else ""}): a source shared with another target would be removed from both', rm)
 
@@ -840,36 +1099,86 @@ def _r4_guards(ctx: RuleCtx, mod: Module) -> None:
     cand = pick.value.args[0].id  # type: ignore[attr-defined]
     defs = [st for st in walk_no_nested(fn) if isinstance(st, ast.Assign) and len(st.targets) == 1 and norm(st.targets[0]) == cand]
 
-    def is_filter(st: ast.Assign, need_guard: bool) -> bool:
-        v = st.value
-        if not (isinstance(v, (ast.SetComp, ast.ListComp)) and len(v.generators) == 1 and norm(v.elt) == norm(v.generators[0].target)
-                and norm(v.generators[0].iter) == cand):
-            return False
-        if not need_guard:
-            return True
-        x = norm(v.generators[0].target)
-        return any(norm(c) == f'self.{gname}({x})' for c in v.generators[0].ifs)
-    guards = [st for st in defs if is_filter(st, True)]
-    if len(guards) != 1:
-        ctx.violation(mod, qn, pick, f'the candidates handed to `{short(pick.value)}` are never filtered with {gname}: a node shared with another target could be chosen', pick)
-        return
-    gnodes = cfg.stmt_nodes(guards[0])
-    pnodes = cfg.stmt_nodes(pick)
-    bad_defs = []
+    ldefs: T.Dict[str, T.List[ast.Assign]] = {}
+    for st in walk_no_nested(fn):
+        if isinstance(st, ast.Assign) and len(st.targets) == 1 and isinstance(st.targets[0], ast.Name):
+            ldefs.setdefault(st.targets[0].id, []).append(st)
+
+    def mentions(e: ast.AST, depth: int = 0) -> bool:
+        for n in ast.walk(e):
+            if isinstance(n, ast.Name):
+                if n.id == cand:
+                    return True
+                ds = ldefs.get(n.id, [])
+                if depth < 3 and any(mentions(d.value, depth + 1) for d in ds):
+                    return True
+        return False
+
+    def classify(v: ast.AST, via: T.List[ast.Assign], depth: int = 0) -> str:
+        """guard: only elements that passed the guard; filter: a subset of the candidate set as it was; source: elements from
+        somewhere else, unguarded; unknown."""
+        if depth > 4:
+            return 'unknown'
+        if isinstance(v, ast.Name):
+            if v.id == cand:
+                return 'filter'
+            ds = ldefs.get(v.id, [])
+            if len(ds) == 1:
+                via.append(ds[0])
+                return classify(ds[0].value, via, depth + 1)
+            return 'unknown'
+        if isinstance(v, (ast.SetComp, ast.ListComp, ast.GeneratorExp)) and len(v.generators) == 1 and norm(v.elt) == norm(v.generators[0].target):
+            x = norm(v.generators[0].target)
+            conds: T.List[ast.AST] = []
+            for c in v.generators[0].ifs:
+                conds += c.values if isinstance(c, ast.BoolOp) and isinstance(c.op, ast.And) else [c]
+            if any(norm(c) == f'self.{gname}({x})' for c in conds):
+                return 'guard'
+            sub: T.List[ast.Assign] = []
+            base = classify(v.generators[0].iter, sub, depth + 1)
+            if base in ('filter', 'guard'):
+                via.extend(sub)
+                return base
+            return 'unknown' if mentions(v.generators[0].iter) else 'source'     # elements taken from somewhere else
+        if isinstance(v, ast.Call) and norm(v.func) in ('set', 'list', 'sorted', 'frozenset', 'tuple') and len(v.args) == 1:
+            return classify(v.args[0], via, depth + 1)
+        if isinstance(v, ast.Call) and isinstance(v.func, ast.Attribute) and v.func.attr in ('copy', 'intersection', 'difference') :
+            return classify(v.func.value, via, depth + 1)
+        if isinstance(v, ast.BinOp) and isinstance(v.op, (ast.BitAnd, ast.Sub)):
+            return classify(v.left, via, depth + 1)
+        if isinstance(v, ast.Call) or isinstance(v, (ast.Subscript, ast.Attribute, ast.IfExp, ast.BinOp)):
+            return 'unknown'
+        return 'source'
+    kinds: T.List[T.Tuple[ast.Assign, str, T.List[ast.Assign]]] = []
     for st in defs:
-        if st is guards[0]:
+        via: T.List[ast.Assign] = []
+        kinds.append((st, classify(st.value, via), via))
+    guards = [st for st, k, _ in kinds if k == 'guard']
+    gnodes = [n for st in guards for n in cfg.stmt_nodes(st)]
+    pnodes = cfg.stmt_nodes(pick)
+    other_uses = [c for c in ast.walk(fn) if isinstance(c, ast.Call) and norm(c.func) == f'self.{gname}' and not any(c in list(ast.walk(st)) for st in guards)]
+    bad_defs: T.List[ast.AST] = []
+    unknown: T.List[ast.AST] = []
+    for st, k, via in kinds:
+        if k == 'guard':
             continue
-        if is_filter(st, False):
-            continue       # narrows the same set: cannot re-admit a rejected candidate
-        for dn in cfg.stmt_nodes(st):
-            for pn in pnodes:
-                if cfg.can_reach(dn, pn, avoid=gnodes):
-                    bad_defs.append(st)
-    dominated = all(cfg.dominated_by_any(pn, gnodes) for pn in pnodes)
-    ctx.require(dominated and not bad_defs, f'{qn}: every candidate reaching `{short(pick.value, 50)}` passed the {gname} filter ({len(defs)} definitions of {cand})', mod, qn, pick,
-                f'`{short(pick.value)}` can see candidates that did not pass {gname}'
-                + (f' (defined by `{short(bad_defs[0])}` after/around the filter)' if bad_defs else ' (the filter does not dominate the choice)')
-                + ': a list shared with another target could be extended', pick)
+        def reaches_choice(sites: T.List[ast.Assign]) -> bool:
+            return any(cfg.can_reach(dn, pn, avoid=gnodes) for s_ in sites for dn in cfg.stmt_nodes(s_) for pn in pnodes)
+        if k == 'filter':
+            # narrows the set as it was: harmless where it stands; a subset computed into a local *before* the guard and
+            # assigned afterwards would carry unguarded elements over
+            early = [s_ for s_ in via if not (gnodes and all(cfg.dominated_by_any(dn, gnodes) for dn in cfg.stmt_nodes(s_)))]
+            if early and reaches_choice(early):
+                unknown.append(st)
+        elif reaches_choice([st]):
+            (bad_defs if k == 'source' else unknown).append(st)
+    if bad_defs and not other_uses and not unknown:
+        ctx.violation(mod, qn, pick, f'`{short(pick.value)}` can see candidates that did not pass {gname}: `{short(bad_defs[0])}` takes them from elsewhere and reaches the choice '
+                      + ('without passing the filter' if guards else f'and no definition of {cand} applies {gname}') + ': a list shared with another target could be extended', pick)
+    elif bad_defs or unknown or not guards:
+        raise Undecided(f'{qn}: cannot follow how {cand} is built before `{short(pick.value)}` ({short((unknown or bad_defs or [pick])[0])})')
+    else:
+        ctx.ok(f'{qn}: every candidate reaching `{short(pick.value, 50)}` passed the {gname} filter ({len(defs)} definitions of {cand})')
 
 
 # ---------------------------------------------------------------------------
@@ -906,18 +1215,22 @@ def r6(ctx: RuleCtx) -> None:
     if len(kw) != 1:
         raise Undecided(f'{qn}: removal command addresses {list(kw)}')
     kwname, pats = next(iter(kw.items()))
-    if not (isinstance(pats, ast.ListComp) and len(pats.generators) == 1 and isinstance(pats.elt, ast.JoinedStr)):
-        raise Undecided(f'{qn}: patterns are not [f"..." for key in ...]: {short(pats)}')
+    if isinstance(pats, ast.Name):      # the list bound to a local first
+        pd = [n.value for n in ast.walk(fn) if isinstance(n, ast.Assign) and len(n.targets) == 1 and norm(n.targets[0]) == pats.id]
+        if len(pd) == 1:
+            pats = pd[0]
+    if not (isinstance(pats, ast.ListComp) and len(pats.generators) == 1):
+        raise Undecided(f'{qn}: patterns are not [<template> for key in ...]: {short(pats)}')
     var = norm(pats.generators[0].target)
     if "cmd['options']" not in norm(pats.generators[0].iter):
         raise Undecided(f'{qn}: patterns are not built from the requested option keys')
-    pieces = pats.elt.values
-    kidx = [i for i, p in enumerate(pieces) if isinstance(p, ast.FormattedValue) and var in {n.id for n in ast.walk(p.value) if isinstance(n, ast.Name)}]
-    if len(kidx) != 1 or not all(isinstance(p, ast.Constant) for i, p in enumerate(pieces) if i != kidx[0]):
+    pieces = template_parts(pats.elt)       # f-string, concatenation, % or .format alike
+    kidx = [i for i, p in enumerate(pieces) if not isinstance(p, ast.Constant) and var in {n.id for n in ast.walk(p) if isinstance(n, ast.Name)}]
+    if len(kidx) != 1 or not all(isinstance(p, ast.Constant) and isinstance(p.value, str) for i, p in enumerate(pieces) if i != kidx[0]):
         raise Undecided(f'{qn}: pattern {short(pats.elt)} is not constant + key + constant')
     lead = ''.join(p.value for p in pieces[:kidx[0]])      # type: ignore[attr-defined]
     trail = ''.join(p.value for p in pieces[kidx[0] + 1:])  # type: ignore[attr-defined]
-    keyexpr = pieces[kidx[0]].value                         # type: ignore[attr-defined]
+    keyexpr = pieces[kidx[0]]
     self_anchored = bool(lead) and _only_anchors(lead)
     ctx.require(lead == '' or self_anchored, f'{qn}: nothing but a start anchor precedes the key in the pattern ({lead!r} + key + {trail!r})', mod, qn, pats.elt,
                 f'the removal pattern is {lead!r} + key + {trail!r}: the text before the key can match characters, so `default-options set debug` / `delete c_std` '
@@ -1087,6 +1400,13 @@ def _reset_of(st: ast.AST, recv: str, lists: T.Iterable[str]) -> T.Optional[str]
     return None
 
 
+def _method_empties(mod: Module, mname: str, lst: str) -> bool:
+    f = mod.func(f'Rewriter.{mname}')
+    c = CFG(f)
+    rs = [n for n in c.nodes if n.kind == 'stmt' and _reset_of(n.ast, 'self', [lst])]
+    return bool(rs) and not c.can_reach(c.entry, c.exit_return, avoid=rs)
+
+
 def r7(ctx: RuleCtx) -> None:
     mod = ctx.repo.module(REWRITER)
     lists = _work_lists(mod)
@@ -1136,6 +1456,15 @@ def r7(ctx: RuleCtx) -> None:
                         ctx.ok(f'{qn}: apply_changes empties {a} itself')
                         continue
                     rs = [n for n in cfg.nodes if n.kind == 'stmt' and _reset_of(n.ast, recv, [a])]
+                    # a method of the class called on the same object that empties the list on every way out counts too
+                    for n in cfg.nodes:
+                        e_ = n.expr()
+                        if e_ is None:
+                            continue
+                        for c_ in walk_no_nested(e_):
+                            if isinstance(c_, ast.Call) and isinstance(c_.func, ast.Attribute) and norm(c_.func.value) == recv \
+                                    and c_.func.attr != 'apply_changes' and mod.has_func(f'Rewriter.{c_.func.attr}') and _method_empties(mod, c_.func.attr, a):
+                                rs.append(n)
                     leak = any(cfg.can_reach(a_, b_, avoid=rs) for a_ in cn for b_ in again)
                     ctx.require(not leak, f'{qn}: every way from `{short(c)}` to the next one empties {recv}.{a} ({len(rs)} reset(s))', m, qn,
                                 f'{recv}.{a} between two apply_changes()',
